@@ -331,3 +331,221 @@ Proof.
   apply eps_insensitive_mk_allocation. apply H. reflexivity.
 Qed.
 End AllocOps.
+
+(* ------------------------------------------------------------------ *)
+(* Die(...)                                                            *)
+(* ------------------------------------------------------------------ *)
+From FrameModel Require Die.Cover.
+(* the rectangles whose pairwise overlap _check_rectangles tests, for the grid obtained with tolerance e *)
+Definition die_all (e : Qc) (d : DM.desc) (w h : Qc) (regions : list Rect) : list Rect :=
+  let ins := DM.inputs regions (DM.d_fixed d) in
+  let xs := DM.die_xs e w h ins in
+  let ys := DM.die_ys e w h ins in
+  DM.specialised regions ++ map (DM.ground_of xs ys) (DM.die_cover e d Cover.greedy_cover) ++
+  DM.blockages regions ++ DM.d_fixed d.
+Definition robust_die (lo hi alo ahi : Qc) (d : DM.desc) : bool :=
+  match DM.parse d with
+  | None => true
+  | Some (w, h, regions) =>
+      robust_bounds lo hi (DM.inputs regions (DM.d_fixed d) ++ [DM.die_rect w h]) &&
+      robust_pairs alo ahi (die_all lo d w h regions)
+  end.
+
+Section DieOps.
+Variables lo hi alo ahi e1 e2 a1 a2 : Qc.
+Hypothesis B1 : band lo hi e1.
+Hypothesis B2 : band lo hi e2.
+Hypothesis C1 : band alo ahi a1.
+Hypothesis C2 : band alo ahi a2.
+
+Lemma forallb_ext_in' {A} (f g : A -> bool) l : (forall x, In x l -> f x = g x) -> forallb f l = forallb g l.
+Proof.
+  induction l as [|x r IH]; intro H; [reflexivity|]. cbn. rewrite (H x (or_introl eq_refl)), IH; [reflexivity|].
+  intros y Hy. apply H. right. exact Hy.
+Qed.
+Lemma dm_no_overlaps_eq L l : RP alo ahi L -> incl l L -> DM.no_overlaps a1 l = DM.no_overlaps a2 l.
+Proof.
+  intros P. induction l as [|r rest IH]; intro Hi; [reflexivity|]. cbn [DM.no_overlaps].
+  assert (Hr : incl rest L) by (intros x Hx; apply Hi; right; exact Hx).
+  rewrite (IH Hr). f_equal. apply forallb_ext_in'.
+  intros s Hs. rewrite (ov_eq alo ahi a1 a2 C1 C2 r s); [reflexivity|].
+  apply P; [apply Hi; left; reflexivity|apply Hr; exact Hs].
+Qed.
+
+Lemma die_xs_eq w h ins : robust_bounds lo hi (ins ++ [DM.die_rect w h]) = true ->
+  DM.die_xs e1 w h ins = DM.die_xs e2 w h ins /\ DM.die_ys e1 w h ins = DM.die_ys e2 w h ins.
+Proof.
+  intro R. pose proof (eps_insensitive_die_boundaries lo hi e1 e2 B1 B2 _ R) as E.
+  unfold DB.gather_boundaries in E. unfold DM.die_xs, DM.die_ys. split; congruence.
+Qed.
+
+Theorem eps_insensitive_die_model_gen deps tin d :
+  (forall w h regions, DM.parse d = Some (w, h, regions) ->
+     robust_bounds lo hi (DM.inputs regions (DM.d_fixed d) ++ [DM.die_rect w h]) = true /\
+     robust_pairs alo ahi (die_all e2 d w h regions) = true) ->
+  DM.die_model e1 a1 deps tin d = DM.die_model e2 a2 deps tin d.
+Proof.
+  intro H. unfold DM.die_model.
+  assert (Ec : DM.die_cover e1 d Cover.greedy_cover = DM.die_cover e2 d Cover.greedy_cover).
+  { unfold DM.die_cover. destruct (DM.parse d) as [[[w h] regions]|] eqn:E; [|reflexivity].
+    destruct (H w h regions eq_refl) as [Rb _]. destruct (die_xs_eq w h _ Rb) as [Ex Ey].
+    cbv zeta. rewrite Ex, Ey. reflexivity. }
+  rewrite Ec. unfold DM.die_with_cover.
+  destruct (DM.parse d) as [[[w h] regions]|] eqn:E; [|reflexivity].
+  destruct (H w h regions eq_refl) as [Rb Rp]. destruct (die_xs_eq w h _ Rb) as [Ex Ey].
+  cbv zeta. rewrite Ex, Ey.
+  destruct (negb (Cover.is_cover _ _ _ _)); [reflexivity|].
+  unfold DM.check_rectangles.
+  destruct (negb (forallb _ _)); [reflexivity|].
+  unfold die_all in Rp. cbv zeta in Rp.
+  rewrite (dm_no_overlaps_eq _ _ (robust_pairs_RP alo ahi _ Rp) (incl_refl _)). reflexivity.
+Qed.
+End DieOps.
+
+(* the decidable form: robustness evaluated at the lower end of the band *)
+Theorem eps_insensitive_die_model lo hi alo ahi e1 e2 a1 a2 deps tin d :
+  band lo hi e1 -> band lo hi e2 -> band alo ahi a1 -> band alo ahi a2 ->
+  robust_die lo hi alo ahi d = true ->
+  DM.die_model e1 a1 deps tin d = DM.die_model e2 a2 deps tin d.
+Proof.
+  intros B1 B2 C1 C2 R.
+  assert (Bl : band lo hi lo) by (destruct B1; split; [apply Qcle_refl|eapply Qcle_trans; eassumption]).
+  assert (Cl : band alo ahi alo) by (destruct C1; split; [apply Qcle_refl|eapply Qcle_trans; eassumption]).
+  assert (H : forall w h regions, DM.parse d = Some (w, h, regions) ->
+     robust_bounds lo hi (DM.inputs regions (DM.d_fixed d) ++ [DM.die_rect w h]) = true /\
+     robust_pairs alo ahi (die_all lo d w h regions) = true).
+  { intros w h regions E. unfold robust_die in R. rewrite E in R. apply andb_true_iff in R. exact R. }
+  transitivity (DM.die_model lo alo deps tin d).
+  - exact (eps_insensitive_die_model_gen lo hi alo ahi e1 lo a1 alo B1 Bl C1 Cl deps tin d H).
+  - symmetry. exact (eps_insensitive_die_model_gen lo hi alo ahi e2 lo a2 alo B2 Bl C2 Cl deps tin d H).
+Qed.
+
+(* ------------------------------------------------------------------ *)
+(* Netlist(...)                                                        *)
+(* ------------------------------------------------------------------ *)
+Definition stog_rects (m : NR.module) : list Rect :=
+  map NR.to_rect (map (fun r => NR.set_mloc r NOPOLY) (NR.m_rects m)).
+(* one module after create_square: the overlap assertion of hard modules, create_stog *)
+Definition robust_module (lo hi alo ahi : Qc) (m : NR.module) : bool :=
+  (if NR.m_hard m && negb (NR.m_terminal m) then robust_pairs alo ahi (map NR.to_rect (NR.m_rects m)) else true) &&
+  robust_stog lo hi alo ahi (stog_rects m).
+
+Section NetlistOps.
+Variable sqrt_o : Qc -> Qc.
+Variables lo hi alo ahi e1 e2 a1 a2 : Qc.
+Hypothesis B1 : band lo hi e1.
+Hypothesis B2 : band lo hi e2.
+Hypothesis C1 : band alo ahi a1.
+Hypothesis C2 : band alo ahi a2.
+
+Definition robust_netlist (t : YT.ytree) : bool :=
+  match NR.parse_netlist t with
+  | NR.Ok p =>
+      match NR.cr_squares sqrt_o (fst p) with
+      | NR.Ok ms1 => forallb (robust_module lo hi alo ahi) ms1
+      | NR.Reject _ => true
+      end
+  | NR.Reject _ => true
+  end.
+
+Lemma nr_no_overlap_with_eq L r l : RP alo ahi L -> In (NR.to_rect r) L -> incl (map NR.to_rect l) L ->
+  NR.no_overlap_with a1 r l = NR.no_overlap_with a2 r l.
+Proof.
+  intros P Hr. induction l as [|s rest IH]; intro Hi; [reflexivity|]. cbn [NR.no_overlap_with].
+  rewrite (ov_eq alo ahi a1 a2 C1 C2 (NR.to_rect r) (NR.to_rect s));
+    [|apply P; [exact Hr|apply Hi; left; reflexivity]].
+  rewrite IH; [reflexivity|]. intros x Hx. apply Hi. right. exact Hx.
+Qed.
+Lemma nr_no_overlaps_eq L l : RP alo ahi L -> incl (map NR.to_rect l) L ->
+  NR.no_overlaps a1 l = NR.no_overlaps a2 l.
+Proof.
+  intros P. induction l as [|r rest IH]; intro Hi; [reflexivity|]. cbn [NR.no_overlaps].
+  assert (Hr : incl (map NR.to_rect rest) L) by (intros x Hx; apply Hi; right; exact Hx).
+  rewrite (nr_no_overlap_with_eq L r rest P (Hi _ (or_introl eq_refl)) Hr), (IH Hr). reflexivity.
+Qed.
+
+Lemma swap0g_In {A} (l : list A) b y : In y (NR.swap0g l b) -> In y l.
+Proof.
+  unfold NR.swap0g. destruct l as [|h r]; [intros []|]. destruct (nth_error (h :: r) b) as [x|] eqn:E; [|auto].
+  intro H. apply set_nth_In in H. destruct H as [->|H]; [eapply nth_error_In; exact E|].
+  apply set_nth_In in H. destruct H as [->|H]; [left; reflexivity|exact H].
+Qed.
+
+Lemma m_create_stog_eq rs :
+  robust_stog lo hi alo ahi (map NR.to_rect (map (fun r => NR.set_mloc r NOPOLY) rs)) = true ->
+  NR.m_create_stog e1 a1 rs = NR.m_create_stog e2 a2 rs.
+Proof.
+  intro R. apply (robust_stog_RS lo hi alo ahi) in R. unfold NR.m_create_stog.
+  destruct rs as [|r0 [|r1 rest]]; [reflexivity|reflexivity|].
+  set (rs := r0 :: r1 :: rest) in *. set (rs0 := map (fun r => NR.set_mloc r NOPOLY) rs) in *.
+  set (g := map NR.to_rect rs0) in *.
+  rewrite (scan_eq lo hi alo ahi e1 e2 a1 a2 B1 B2 C1 C2 g g R 0%nat None).
+  destruct (scan e2 a2 g g 0 None) as [[b ab]|]; [|reflexivity].
+  destruct (NR.swap0g rs0 b) as [|t rest'] eqn:E; [reflexivity|].
+  assert (Em : map (fun r => NR.set_mloc r (find_location e1 a1 (NR.to_rect t) (NR.to_rect r))) rest' =
+               map (fun r => NR.set_mloc r (find_location e2 a2 (NR.to_rect t) (NR.to_rect r))) rest').
+  { apply map_ext_in. intros r Hr. f_equal.
+    apply (fl_eq lo hi alo ahi e1 e2 a1 a2 B1 B2 C1 C2). apply R; apply in_map; apply (swap0g_In rs0 b); rewrite E.
+    - left. reflexivity.
+    - right. exact Hr. }
+  rewrite Em. reflexivity.
+Qed.
+
+Lemma cr_overlaps_eq ms : forallb (robust_module lo hi alo ahi) ms = true ->
+  NR.cr_overlaps a1 ms = NR.cr_overlaps a2 ms.
+Proof.
+  induction ms as [|m rest IH]; intro R; [reflexivity|]. cbn [forallb] in R. apply andb_true_iff in R.
+  destruct R as [Rm Rr]. cbn [NR.cr_overlaps]. rewrite (IH Rr).
+  replace (NR.cr_overlap a1 m) with (NR.cr_overlap a2 m); [reflexivity|].
+  unfold NR.cr_overlap. unfold robust_module in Rm. apply andb_true_iff in Rm. destruct Rm as [Rm _].
+  destruct (NR.m_hard m && negb (NR.m_terminal m)); [|reflexivity].
+  rewrite (nr_no_overlaps_eq _ (NR.m_rects m) (robust_pairs_RP alo ahi _ Rm) (incl_refl _)). reflexivity.
+Qed.
+Lemma cr_stogs_eq ms : forallb (robust_module lo hi alo ahi) ms = true ->
+  NR.cr_stogs e1 a1 ms = NR.cr_stogs e2 a2 ms.
+Proof.
+  induction ms as [|m rest IH]; intro R; [reflexivity|]. cbn [forallb] in R. apply andb_true_iff in R.
+  destruct R as [Rm Rr]. cbn [NR.cr_stogs]. rewrite (IH Rr).
+  replace (NR.cr_stog e1 a1 m) with (NR.cr_stog e2 a2 m); [reflexivity|].
+  unfold NR.cr_stog. unfold robust_module in Rm. apply andb_true_iff in Rm. destruct Rm as [_ Rm].
+  destruct (NR.m_rects m) as [|r0 r] eqn:E; [reflexivity|].
+  unfold stog_rects in Rm. rewrite E in Rm. rewrite (m_create_stog_eq (r0 :: r) Rm). reflexivity.
+Qed.
+
+(* the part of _create_rectangles after the tolerances are known *)
+Lemma create_rectangles_view d1 d2 ms ms1 :
+  NR.cr_squares sqrt_o ms = NR.Ok ms1 ->
+  NR.epsilon_after sqrt_o d1 ms1 = Some (e1, a1) -> NR.epsilon_after sqrt_o d2 ms1 = Some (e2, a2) ->
+  forallb (robust_module lo hi alo ahi) ms1 = true ->
+  match NR.create_rectangles sqrt_o d1 ms, NR.create_rectangles sqrt_o d2 ms with
+  | NR.Ok (x1, y1, _), NR.Ok (x2, y2, _) => x1 = x2 /\ y1 = y2
+  | NR.Reject r1, NR.Reject r2 => r1 = r2
+  | _, _ => False
+  end.
+Proof.
+  intros Es E1 E2 R. unfold NR.create_rectangles. rewrite Es. cbn [NR.bind]. rewrite E1, E2.
+  rewrite (cr_overlaps_eq ms1 R), (cr_stogs_eq ms1 R).
+  destruct (NR.cr_overlaps a2 ms1) as [[]|x]; cbn [NR.bind]; [|reflexivity].
+  destruct (NR.cr_stogs e2 a2 ms1) as [p|x]; cbn [NR.bind]; [|reflexivity].
+  destruct (NR.assert _ _) as [[]|x]; cbn [NR.bind]; [split; reflexivity|reflexivity].
+Qed.
+
+Theorem eps_insensitive_read_netlist d1 d2 t :
+  (forall p ms1, NR.parse_netlist t = NR.Ok p -> NR.cr_squares sqrt_o (fst p) = NR.Ok ms1 ->
+     NR.epsilon_after sqrt_o d1 ms1 = Some (e1, a1) /\ NR.epsilon_after sqrt_o d2 ms1 = Some (e2, a2)) ->
+  robust_netlist t = true ->
+  nl_result_view (NR.read_netlist sqrt_o d1 t) = nl_result_view (NR.read_netlist sqrt_o d2 t).
+Proof.
+  intros He R. unfold NR.read_netlist. unfold robust_netlist in R.
+  destruct (NR.parse_netlist t) as [p|x] eqn:Ep; cbn [NR.bind]; [|reflexivity].
+  destruct (NR.cr_squares sqrt_o (fst p)) as [ms1|x] eqn:Es.
+  - destruct (He p ms1 eq_refl Es) as [E1 E2].
+    pose proof (create_rectangles_view d1 d2 (fst p) ms1 Es E1 E2 R) as V.
+    destruct (NR.create_rectangles sqrt_o d1 (fst p)) as [[[x1 y1] z1]|r1];
+      destruct (NR.create_rectangles sqrt_o d2 (fst p)) as [[[x2 y2] z2]|r2]; try contradiction.
+    + destruct V as [-> ->]. cbn [NR.bind].
+      destruct (NR.resolve_edges _ _) as [nets|x]; cbn [NR.bind]; reflexivity.
+    + subst r2. reflexivity.
+  - unfold NR.create_rectangles. rewrite Es. reflexivity.
+Qed.
+End NetlistOps.
